@@ -151,6 +151,16 @@ reg(
     "DESIGN.md 5/C05",
 )
 
+reg(
+    "C08",
+    "bounded exhaustive enumeration of relation instances (None vs indices vs feature rows; every proper candidate subset; every row permutation) over all labelings of small pools, paired executions of the real query under the same tape",
+    "For every strategy, pool and labeling the three ways of addressing the unlabeled candidates are executed and compared; for the "
+    "strategies that score samples independently every proper candidate subset and all 24 row permutations are compared with the "
+    "reference utilities (equivariance only where a two-seed comparison shows the utilities are deterministic).",
+    POOL_NOTE + " The list of sample-wise strategies is the catalogue's reading of the code.",
+    "DESIGN.md 5/C08",
+)
+
 
 def main():
     props = [json.loads(l) for l in open(os.path.join(HOME, "properties.jsonl"))]
